@@ -55,7 +55,9 @@ func TestMakeReplays(t *testing.T) {
 		for name, ok := range want {
 			if ok(c) {
 				if old, have := best[name]; !have || size(c) < size(old) {
-					best[name] = c
+					if v := judge(c); v.OK && v.Discard == "" && v.NonTrivial {
+						best[name] = c
+					}
 				}
 			}
 		}
@@ -71,7 +73,29 @@ func TestMakeReplays(t *testing.T) {
 			t.Fatal(err)
 		}
 	}
+	// one style sheet case: local-css names, bundled, minified, utf8
+	cssGen := rapid.Custom(genCSSCase)
+	var bestCSS *CSSCase
+	for seed := 0; seed < 2000; seed++ {
+		c := cssGen.Example(seed)
+		if c.Local && len(c.Files) > 1 && c.Minify == "all" && c.Charset == "utf8" {
+			if v := judgeCSS(c); v.OK && v.Discard == "" && v.NonTrivial && strings.Contains(v.Observed, " 0 with names") == false {
+				if bestCSS == nil || size2(c) < size2(*bestCSS) {
+					cc := c
+					bestCSS = &cc
+				}
+			}
+		}
+	}
+	if bestCSS == nil {
+		t.Errorf("no css shape found")
+	} else {
+		b, _ := json.MarshalIndent(map[string]interface{}{"property": "C07", "sub": "css", "case": bestCSS, "note": "regression replay (local-css bundle, minified, utf8, names): " + judgeCSS(*bestCSS).Observed}, "", " ")
+		os.WriteFile(filepath.Join(dir, "css-local-bundle-minified-utf8.json"), b, 0o644)
+	}
 	if len(best) != len(want) {
 		t.Errorf("only %d of %d shapes found", len(best), len(want))
 	}
 }
+
+func size2(c CSSCase) int { b, _ := json.Marshal(c); return len(b) }
